@@ -6,6 +6,7 @@
 //   scriptfull ...        same, the result is printed untruncated
 //   names                 names of the variables and biases the module holds
 //   oncallback w1\x1f..   queue a script command that is run inside the scripted-forces callback of every later step
+//   semdump               the numbers the module / proxy hold now (SEMMOD / SEMCV / SEMBIAS lines, hex)
 //   writefile F text      write text ('\x1e' = newline) to file F
 //   gradgroups <cv>       what colvar::collect_cvc_gradients() is about to attribute: for every active component, every atom group
 //                         (then its fitting group) the pairs (atom id, contribution) in LISTING order, and the arrays
@@ -160,6 +161,40 @@ struct c20_session : public vsim_session {
         }
       }
       o << "\n";
+      return true;
+    }
+    if (cmd == "semdump") {
+      // the numbers the module and the proxy hold right now, in hex: the observation that the semantic model is fed with
+      colvarmodule *cv = proxy->colvars;
+      o << "SEMMOD " << cvm::step_absolute() << " " << vs_hex(proxy->bias_energy) << " |";
+      size_t const n = proxy->get_atom_ids()->size();
+      for (size_t i = 0; i < n; i++) o << " " << (*proxy->get_atom_ids())[i];
+      o << " |";
+      for (size_t i = 0; i < n; i++) o << " " << vs_hex((*proxy->get_atom_masses())[i]);
+      o << " |";
+      for (size_t i = 0; i < n; i++) o << " " << vs_hex((*proxy->get_atom_charges())[i]);
+      std::vector<cvm::rvector> const *arrs[3] = { proxy->get_atom_positions(), proxy->get_atom_applied_forces(), proxy->get_atom_total_forces() };
+      for (int k = 0; k < 3; k++) {
+        o << " |";
+        for (size_t i = 0; i < n; i++) o << " " << vs_hex((*arrs[k])[i].x) << " " << vs_hex((*arrs[k])[i].y) << " " << vs_hex((*arrs[k])[i].z);
+      }
+      o << "\n";
+      for (colvar *c : *(cv->variables())) {
+        if (c->value().type() != colvarvalue::type_scalar) continue;
+        o << "SEMCV " << c->name << " " << vs_hex(c->value().real_value) << " " << vs_hex(c->applied_force().real_value) << " "
+          << vs_hex(c->total_force().real_value) << " " << (c->is_enabled(colvardeps::f_cv_active) ? 1 : 0) << " |";
+        std::vector<int> ids;
+        std::vector<std::vector<int> > lists = c->get_atom_lists();
+        for (auto &l : lists) for (int id : l) ids.push_back(id);
+        std::sort(ids.begin(), ids.end());
+        ids.erase(std::unique(ids.begin(), ids.end()), ids.end());
+        for (int id : ids) o << " " << id;
+        o << " |";
+        for (auto const &g : c->atomic_gradients) o << " " << vs_hex(g.x) << " " << vs_hex(g.y) << " " << vs_hex(g.z);
+        o << "\n";
+      }
+      for (colvarbias *b : cv->biases) o << "SEMBIAS " << b->name << " " << vs_hex(b->get_energy()) << "\n";
+      o << "SEMEND\n";
       return true;
     }
     if (cmd == "writefile") {
